@@ -1,7 +1,7 @@
 #![allow(non_camel_case_types, non_snake_case, dead_code)]
 #[tarpc::service]
 pub trait Rej83 {
-    async fn serve(a0: i32, a1: i32) -> String;
-    async fn _a_b();
+    async fn serve(a0: i32, a1: String) -> String;
+    async fn aB(a0: i32) -> String;
 }
 fn main() {}
